@@ -41,7 +41,7 @@ def dedupe_sim(hists, depth):
     return out
 
 
-def simulate_parallel(ctx, files, module, cfg, total, depth, tag, chunks=None, timeout=1500):
+def simulate_parallel(ctx, files, module, cfg, total, depth, tag, chunks=None, timeout=6000):
     """TLC -simulate is single-threaded: run `chunks` independent TLC processes with seeds derived
     from ctx.seed and merge the printed histories. Returns (histories, states_checked)."""
     chunks = chunks or max(1, min(ctx.cores, 16, (total + 27) // 28))
@@ -234,7 +234,7 @@ def resources_histories(ctx, triples):
     q2 = ("MC_Resources_quick2.cfg", {"slots": SLOTS2, "accts": 1, "paths": 2, "refs": 0})
     th = ("MC_Resources_thorough.cfg", {"slots": SLOTS2, "accts": 1, "paths": 2, "refs": 0})
     for n, (cfg, cfgrec) in enumerate([q1, q2] if ctx.quick else [q1, q2, th]):
-        r = ctx.tlc(RES_FILES, "MC_Resources", cfg, workers=1, timeout=1500, tag="res-" + cfg[13:-4])
+        r = ctx.tlc(RES_FILES, "MC_Resources", cfg, workers=1, timeout=6000, tag="res-" + cfg[13:-4])
         g, bs = cover_behaviours(ctx, r.json_lines(), cfgrec, n * 1000000, triples)
         states += len(g.states)
         transitions += len(g.edges)
@@ -312,7 +312,7 @@ def check_C04(ctx):
     binary = ctx.build("res")
     triples = set()
     cfg = "MC_Refs_quick.cfg" if ctx.quick else "MC_Refs_thorough.cfg"
-    r = ctx.tlc(REFS_FILES, "MC_Refs", cfg, workers=1, timeout=1500, tag="refs-cover")
+    r = ctx.tlc(REFS_FILES, "MC_Refs", cfg, workers=1, timeout=6000, tag="refs-cover")
     g, behs = cover_behaviours(ctx, r.json_lines(), {"slots": SLOTS2, "accts": 1, "paths": 1, "refs": 1}, 0, triples)
     nsim = 224 if ctx.quick else 5600
     depth = 60
@@ -366,7 +366,7 @@ def check_C49(ctx):
     states = transitions = 0
     behs = []
     for n, (cfg, cfgrec) in enumerate([res1, res2, st1] if ctx.quick else [res1, th1, st1, th3]):
-        r = ctx.tlc(ATT_FILES, "MC_Attachments", cfg, workers=1, timeout=1500, tag="att-" + cfg[15:-4])
+        r = ctx.tlc(ATT_FILES, "MC_Attachments", cfg, workers=1, timeout=6000, tag="att-" + cfg[15:-4])
         g, bs = cover_behaviours(ctx, r.json_lines(), cfgrec, n * 1000000, triples)
         states += len(g.states)
         transitions += len(g.edges)
